@@ -301,6 +301,35 @@ func ruleEntityActions(r *Run) {
 		path := &paths[pi]
 		r.at(path)
 		iGet := idxOfCall(path, get, 0)
+		getName := "EntityAction"
+		if iGet < 0 {
+			// the stored action consulted through another lookup of the state with the same key (entity id, name),
+			// whatever it returns (a small struct with the action and a found flag)
+			for i, ev := range path.Events {
+				if ev.Kind != EvCall || ev.Call == nil || len(ev.Call.Args) != 2 {
+					continue
+				}
+				f, ok := ev.Callee.(*types.Func)
+				if !ok || f.Pkg() == nil || f.Pkg().Path() != repoMod+"/modules/vikja" || f == set {
+					continue
+				}
+				sig := f.Type().(*types.Signature)
+				if sig.Recv() == nil || sig.Params().Len() != 2 || sig.Results().Len() == 0 {
+					continue
+				}
+				if nt, ok := derefNamed(sig.Recv().Type()); !ok || nt.Obj().Name() != "State" {
+					continue
+				}
+				if b0, ok := sig.Params().At(0).Type().Underlying().(*types.Basic); !ok || b0.Kind() != types.Uint32 {
+					continue
+				}
+				if b1, ok := sig.Params().At(1).Type().Underlying().(*types.Basic); !ok || b1.Kind() != types.String {
+					continue
+				}
+				iGet, getName = i, f.Name()
+				break
+			}
+		}
 		iSet := idxOfCall(path, set, 0)
 		if iGet < 0 {
 			r.CheckT("H3", fn.Name+":no-store-without-lookup", iSet < 0, fn.Body.Pos(), path, "an action is stored only after the stored one was consulted")
@@ -328,11 +357,25 @@ func ruleEntityActions(r *Run) {
 			if g.Callee == get && strings.HasPrefix(g.Subject, "lookup:") {
 				stored = g.Outcome
 			}
+			// … or a boolean read off what the lookup returned (latest.found)
+			if stored == "" && path.Events[j].Cond != nil {
+				cx := ast.Unparen(path.Events[j].Cond)
+				switch cx.(type) {
+				case *ast.Ident, *ast.SelectorExpr:
+					if strings.Contains(r.P.Canon(path.Events[j].Fn, cx), "call:State."+getName+"(") {
+						if path.Events[j].Val {
+							stored = "hit"
+						} else {
+							stored = "miss"
+						}
+					}
+				}
+			}
 			if strings.HasPrefix(g.Subject, "timelt:") {
 				parts := strings.SplitN(strings.TrimPrefix(g.Subject, "timelt:"), "<", 2)
 				a, b := parts[0], parts[1]
-				newFirst := strings.Contains(a, ea+".Timestamp") && strings.Contains(b, "call:State.EntityAction(") && strings.Contains(b, "#0.Timestamp")
-				oldFirst := strings.Contains(b, ea+".Timestamp") && strings.Contains(a, "call:State.EntityAction(") && strings.Contains(a, "#0.Timestamp")
+				newFirst := strings.Contains(a, ea+".Timestamp") && strings.Contains(b, "call:State."+getName+"(") && strings.Contains(b, ".Timestamp")
+				oldFirst := strings.Contains(b, ea+".Timestamp") && strings.Contains(a, "call:State."+getName+"(") && strings.Contains(a, ".Timestamp")
 				switch {
 				case newFirst: // new < stored
 					older = g.Outcome
